@@ -46,23 +46,33 @@ func wstateTerm(w *World, ids *core.Ids) string {
 		}
 	}
 	sort.Slice(ps, func(i, j int) bool { return ps[i].id < ps[j].id })
-	ren := map[string]int{}
+	cg := canonGroups(w.podPtrs())
 	out := make([]string, len(ps))
 	for i, e := range ps {
 		loc := 0
 		var gs []string
 		if e.p.Status != pod_status.Pending {
 			loc = nodeIx[e.p.Node]
-			for _, g := range e.p.Groups {
-				if _, ok := ren[g]; !ok {
-					ren[g] = len(ren) + 1
-				}
-				gs = append(gs, u.N(uint64(ren[g])))
+			for _, g := range cg[e.p.Name] {
+				gs = append(gs, u.N(uint64(g)))
 			}
 		}
 		out[i] = u.Pair(u.Pos(e.id), u.Pair(u.N(uint64(loc)), u.List(gs)))
 	}
 	return u.List(out)
+}
+
+// micro: GPUs -> millionths of a GPU (the Coq side compares with the tolerances of Run/C15.v size_ok)
+func micro(x float64) int64 { return int64(math.Round(x * 1e6)) }
+
+func sizeActionCode(a string) int {
+	if a == "allocate" {
+		return 0
+	}
+	if c := actionCode(a); c > 0 {
+		return c
+	}
+	return 4
 }
 
 func actionCode(a string) int {
@@ -168,6 +178,7 @@ func runCase(stream string, w *World) result {
 	rebound := false
 	var prevEvs [][2]string
 	gateRefused := false
+	sizeTag := ""
 	jobQueue, podJob := map[string]string{}, map[string]string{}
 	for _, j := range w.Jobs {
 		jobQueue[j.Name] = j.Queue
@@ -210,6 +221,7 @@ func runCase(stream string, w *World) result {
 		rec.Panic = RunActions(b, w.Cfg.Actions)
 		rec.Calls = b.Rec.calls
 		rec.Complaints = len(b.Rep.msgs)
+		rec.Sizes, rec.Partial = b.Sizes, b.PartialPlacements
 		if attrs != nil {
 			if k := gateOnActualVictims(attrs, jobQueue, podJob, multFloat(w.Cfg.Multiplier), rec.Calls); k > 0 {
 				res.stats["class:real-gate-refuses-actual-victims"] += k
@@ -285,8 +297,37 @@ func runCase(stream string, w *World) result {
 				evs = append(evs, u.Tuple(u.Nat(actionCode(cl.Action)), u.Pos(ids.Of("p:"+pre)), u.Pos(ids.Of("p:"+cl.Pod))))
 			}
 		}
-		cycTerms = append(cycTerms, fmt.Sprintf("(mkCy %s %s %s %s)", u.List(binds), u.List(evs), u.List(pipes), wstateTerm(w, ids)))
-		cycDesc = append(cycDesc, fmt.Sprintf("c%d: %s", c, callsDesc(rec.Calls)))
+		var sizes []string
+		res.stats["size:partial-placement"] += rec.Partial
+		for _, o := range rec.Sizes {
+			tag := "consistent"
+			if o.Undercounted() {
+				tag = "UNDERCOUNTED"
+				if sizeTag == "" {
+					sizeTag = fmt.Sprintf(" SIZE-UNDERCOUNTED(c%d %s,%s,%s: counted as %g GPUs, charged %g)", c, o.Job, o.Action, o.Kind, o.Gate, o.Charged)
+				}
+			} else if o.Overcounted() {
+				tag = "OVERCOUNTED"
+				if sizeTag == "" {
+					sizeTag = fmt.Sprintf(" SIZE-OVERCOUNTED(c%d %s,%s,%s: counted as %g GPUs, charged %g)", c, o.Job, o.Action, o.Kind, o.Gate, o.Charged)
+				}
+			} else if !o.Homogeneous {
+				tag = "not-undercounted(other-device-memory)"
+			}
+			ev := ""
+			if o.Evicting {
+				ev = ":evicting"
+			}
+			res.stats["size:"+o.Kind+":"+o.Action+ev+":"+tag]++
+			sizes = append(sizes, fmt.Sprintf("(mkSz %s %s %s %s %s %s %s)", u.Nat(sizeActionCode(o.Action)), u.Pos(ids.Of("p:"+firstPod[o.Job])),
+				u.Z(micro(o.Gate)), u.Z(micro(o.Charged)), u.Z(o.Devices), u.Bool(o.Homogeneous), u.Bool(o.Evicting)))
+		}
+		cycTerms = append(cycTerms, fmt.Sprintf("(mkCy %s %s %s %s %s)", u.List(binds), u.List(evs), u.List(pipes), wstateTerm(w, ids), u.List(sizes)))
+		d := fmt.Sprintf("c%d: %s", c, callsDesc(rec.Calls))
+		if len(rec.Sizes) > 0 && stream == "sized" {
+			d += " sizes{" + sizesDesc(rec.Sizes) + "}"
+		}
+		cycDesc = append(cycDesc, d)
 		if s, ok := first[rec.After]; ok {
 			if totalEv > s.evict && tr.LassoFrom < 0 {
 				tr.LassoFrom, tr.LassoTo = s.at, c
@@ -309,6 +350,9 @@ func runCase(stream string, w *World) result {
 		streamCode = 1
 		if stream == "hier" {
 			streamCode = 2
+		}
+		if stream == "sized" {
+			streamCode = 3
 		}
 		if i := strings.Index(stream, "("); i > 0 {
 			outside, stream = stream[i:], stream[:i]
@@ -334,6 +378,7 @@ func runCase(stream string, w *World) result {
 	if rebound {
 		lasso += " VICTIM-REBOUND-BEFORE-ITS-RECLAIMER"
 	}
+	lasso += sizeTag
 	res.label = fmt.Sprintf("stream=%s%s %s state0{%s} =>%s  %s", stream, outside, Describe(w0), tr.Cycles[0].Before, lasso, strings.Join(cycDesc, "  |  "))
 	res.stats[fmt.Sprintf("%s:cycles=%d", stream, len(tr.Cycles))]++
 	res.stats[fmt.Sprintf("%s:evicting-cycles=%d", stream, tr.EvictingCycles)]++
@@ -417,10 +462,10 @@ func lassoTags(w0 *World, tr *Trace) string {
 	return tags
 }
 
-// RunAll runs the fixed corpus (flat worlds, hierarchical worlds, the enumerated hierarchical family), then n
-// generated worlds (1/2 class stream, 1/2 general stream) and hierN random hierarchical worlds, concurrently, and
-// writes the cases.
-func RunAll(dir string, seed uint64, n int, tier string, hierN int) error {
+// RunAll runs the fixed corpus (flat worlds, hierarchical worlds, the enumerated hierarchical family, the sized worlds
+// and their enumerated family), then n generated worlds (1/2 class stream, 1/2 general stream), hierN random
+// hierarchical worlds and sizedN random sized worlds, concurrently, and writes the cases.
+func RunAll(dir string, seed uint64, n int, tier string, hierN, sizedN int) error {
 	out := u.NewOut(dir, "C15", "KaiV.Run.C15", "case", 25)
 	out.Flags = true
 	type job struct {
@@ -439,6 +484,14 @@ func RunAll(dir string, seed uint64, n int, tier string, hierN int) error {
 	for _, w := range hierFamily() {
 		jobs = append(jobs, job{"hier", w})
 	}
+	// the sized worlds: the world of seeded/C15-3/README.md, its one-device control, variations, and the enumerated
+	// neighbourhood (deterministic); stream "sized" - no listed finding covers a lasso here
+	for _, name := range sizedCorpus {
+		jobs = append(jobs, job{"sized", scenario(name)})
+	}
+	for _, w := range sizedFamily() {
+		jobs = append(jobs, job{"sized", w})
+	}
 	for i := 0; i < n; i++ {
 		st, w := GenCase(seed, i)
 		jobs = append(jobs, job{st, w})
@@ -455,6 +508,16 @@ func RunAll(dir string, seed uint64, n int, tier string, hierN int) error {
 	}
 	for k := 0; k < hierN; k++ {
 		jobs = append(jobs, job{"hier", GenHier(u.NewRng(seed ^ hierSalt).Fork(uint64(k)))})
+	}
+	// random sized worlds (GenSized), appended; -probe sized:<seed>:<k>
+	if sizedN < 0 {
+		sizedN = n / 10
+		if tier == "thorough" {
+			sizedN = n / 5
+		}
+	}
+	for k := 0; k < sizedN; k++ {
+		jobs = append(jobs, job{randomSizedStream, GenSized(u.NewRng(seed ^ sizedSalt).Fork(uint64(k)))})
 	}
 	results := make([]result, len(jobs))
 	var wg sync.WaitGroup
@@ -482,7 +545,7 @@ func RunAll(dir string, seed uint64, n int, tier string, hierN int) error {
 			fmt.Fprintf(os.Stderr, "LASSO on the real scheduler:\n%s\n", r.dump)
 		}
 	}
-	out.Stats["rule"] = "EXPLORATION: bounded closed-system runs (<= 12 cycles; an evicted pod is pending again, a pipelined (nominated) pod is simply pending again in the next cycle, a bind completes; lasso = a canonical world state seen before with an eviction in between) of the real actions (allocate, consolidation, reclaim, preempt[, stalegangeviction]) with AllowConsolidatingReclaim, MaxNumberConsolidationPreemptees and the proportion plugin's relcaimerSaturationMultiplier varied. World shapes: (1) fixed corpus, run first: 13 flat / two-level worlds (gate ping-pong, equal-priority preemption, the minimal worlds of the known findings) + 6 hierarchical worlds (the world of seeded/C15-2/README.md: two departments, the reclaimer's department with two leaf queues, a 3-GPU pending job of the sibling queue first in the department next to a 1-GPU job entitled to reclaim; variations: no big job, big job in the victim's department, three departments, big job schedulable, department limit instead of quota) + 360 enumerated hierarchical worlds (hierFamily: position / size of the big job x own running job x how it gets in front x overshoot of the victim's department x {plain, department limit, three departments, 2-GPU reclaimer, no consolidating reclaim}); (2) n generated worlds: stream 'class' (1/2: <= 4 nodes, 2-4 leaf queues under 1-2 departments, <= 8 single-pod 1-GPU preemptible jobs, no limits: the class of theorem C15_rank_decreases, refinement-checked against Model/ClosedSystem.v incl. order consistency), stream 'general' (1/4: gangs, fractional pods, CPU as second resource, limits, non-preemptible jobs; 1/4 class-shaped with queue priorities / over-subscribed quotas; monitor only); (3) stream 'hier' random worlds (GenHier: 1-2 nodes of 4-8 GPUs, 2-3 departments with quota and sometimes limit and priority, 1-3 leaf queues each with quotas that may over-subscribe the department, limits, over-quota weights 0-3, queue priorities, 4-12 single-pod jobs of 1-4 GPUs with varied priorities / creation times, half of them built around a big pending job of a sibling leaf queue): thorough tier n/5, quick tier none (flag -hier K). Lassos on the unchanged tree: corpus and enumerated hierarchical worlds 0 of 366; random hierarchical worlds 27 of 6000 (18 with tag SIM-REPLACED*: the committed scenario had evicted and re-placed other pods; 9 + 1 of those UNSTABLE: the decisions of the same world differ from run to run, they depend on Go map iteration order) - proposed findings, see checks.d; general stream about 8 per 1500 (known finding). Lasso tags are computed from what is observable without hooks (framework.EventHandler on the session's statements, re-running the world 10 times). Non-trivial = the run contains at least one evicting cycle; distinct by world and decisions."
+	out.Stats["rule"] = "EXPLORATION: bounded closed-system runs (<= 12 cycles; an evicted pod is pending again, a pipelined (nominated) pod is simply pending again in the next cycle, a bind completes; lasso = a canonical world state seen before with an eviction in between) of the real actions (allocate, consolidation, reclaim, preempt[, stalegangeviction]) with AllowConsolidatingReclaim, MaxNumberConsolidationPreemptees and the proportion plugin's relcaimerSaturationMultiplier varied. World shapes: (1) fixed corpus, run first: 13 flat / two-level worlds (gate ping-pong, equal-priority preemption, the minimal worlds of the known findings) + 6 hierarchical worlds (the world of seeded/C15-2/README.md: two departments, the reclaimer's department with two leaf queues, a 3-GPU pending job of the sibling queue first in the department next to a 1-GPU job entitled to reclaim; variations: no big job, big job in the victim's department, three departments, big job schedulable, department limit instead of quota) + 360 enumerated hierarchical worlds (hierFamily: position / size of the big job x own running job x how it gets in front x overshoot of the victim's department x {plain, department limit, three departments, 2-GPU reclaimer, no consolidating reclaim}); (2) n generated worlds: stream 'class' (1/2: <= 4 nodes, 2-4 leaf queues under 1-2 departments, <= 8 single-pod 1-GPU preemptible jobs, no limits: the class of theorem C15_rank_decreases, refinement-checked against Model/ClosedSystem.v incl. order consistency), stream 'general' (1/4: gangs, fractional pods, CPU as second resource, limits, non-preemptible jobs; 1/4 class-shaped with queue priorities / over-subscribed quotas; monitor only); (3) stream 'hier' random worlds (GenHier: 1-2 nodes of 4-8 GPUs, 2-3 departments with quota and sometimes limit and priority, 1-3 leaf queues each with quotas that may over-subscribe the department, limits, over-quota weights 0-3, queue priorities, 4-12 single-pod jobs of 1-4 GPUs with varied priorities / creation times, half of them built around a big pending job of a sibling leaf queue): thorough tier n/5, quick tier none (flag -hier K). (4) SIZED worlds (sized.go): jobs whose size is not a number of whole GPUs - gpu-memory requests (devices of memory 100 as test_utils' fake nodes report it, and 16 / 40 / 80 GiB devices), gpu-fraction requests, both with gpu-fraction-num-devices 1-3 (pods built through core.PodSpec -> the real pod_info.NewTaskInfo) - against ELASTIC running jobs (minAvailable < pods) in queues with deserved quota / over-quota weight 0 / fair share at the boundary: stream 'sized' = 9 fixed worlds (sized-elastic-gpumem-2dev = the world of seeded/C15-3/README.md exactly, sized-elastic-gpumem-1dev = its one-device control, 3 devices, the same sizes as gpu-fraction requests, 16 GiB devices, a gang as victim, a reclaimer that really fits its fair share, sized-kinds = one pending job of every kind) + 144 enumerated neighbours (sizedFamily: kind x devices 1-3 x sizes x quotas x which job is older; -probe sizedfam:<k>), run in every tier, no lasso and no size disagreement on the unchanged tree, identical over 6 repeated runs; no listed finding covers stream 'sized'. Random sized worlds (GenSized: 1-2 nodes of 2-4 GPUs, 2-3 queues, 3-7 jobs of every kind, 1-3 pods, gangs and elastic jobs, most of them running with their GPU groups; -probe sized:<seed>:<k>) extend the general stream and are labelled stream=general(sized): quick tier n/10, thorough tier n/5 (flag -sized K); on the unchanged tree about 0.6% end in a lasso (survey over seeds 1-3: 50 of 8000, the count varies by one or two between runs), every one of the form bind(X) ... evict(X) inside one cycle except one of the period-2 form (evicted and moved, bound back next cycle) - the two forms of known finding C15-rebound-pod-evicted-again -, no size disagreement. SIZE OBSERVATIONS (every stream, every cycle, every action): right before an action the harness asks the real podgroup_info.GetTasksToAllocate / GetTasksToAllocateInitResource (the value proportion.buildReclaimerInfo hands the reclaim gate) for every job with pending pods; after the action, for every job of which exactly those pods were placed, the sum of utils.QuantifyResourceRequirements(AcceptedResource) is what the queue was charged; monitor: charged <= counted + 0.01 GPU per shared device (the charged portion of a device is rounded up to 1/100), and counted <= charged when the pods sit on devices of the memory the session divides by (label tags SIZE-UNDERCOUNTED / SIZE-OVERCOUNTED; counts size:<kind>:<action>[:evicting]:<outcome>). Lassos on the unchanged tree: corpus and enumerated hierarchical worlds 0 of 366; random hierarchical worlds 27 of 6000 (18 with tag SIM-REPLACED*: the committed scenario had evicted and re-placed other pods; 9 + 1 of those UNSTABLE: the decisions of the same world differ from run to run, they depend on Go map iteration order) - proposed findings, see checks.d; general stream about 8 per 1500 (known finding). Lasso tags are computed from what is observable without hooks (framework.EventHandler on the session's statements, re-running the world 10 times). Non-trivial = the run contains at least one evicting cycle; distinct by world and decisions."
 	return out.Flush()
 }
 
